@@ -84,6 +84,12 @@ def gen_program(rng):
                 ps = rng.sample([p for p in PARAMS if not p.endswith("$")], rng.randint(1, 2))
                 add("DEF %s(%s)=%s" % (f, ",".join(ps), rng.choice(["*", "-", "+"]).join(ps + [rng.choice(["10", "Y", "A*2"])])))
                 fns[j] = (f, len(ps), False, ps)
+        if rng.random() < 0.1:
+            # CLEAR forgets every definition (and RUN begins with one): a call is undefined until its DEF is executed again
+            add("CLEAR")
+            if rng.random() < 0.5:
+                f, k, s0, ps0 = rng.choice(fns)
+                add("DEF %s(%s)=%s" % (f, ",".join(ps0), '"again"' if s0 else "77"))
         c, is_str = call()
         r = rng.random()
         if r < 0.4:
@@ -116,6 +122,13 @@ SPECIALS = [
      [sess.E("10 DEF FNA(X)=FNB(X)"), sess.E("20 DEF FNB(Y)=FNA(Y)"), sess.E("30 PRINT FNA(1)"), sess.E("RUN"), "R5000"],
      lambda ev: "E:[7 " in ev),
     ("undefined function", [sess.E("PRINT FNZ(1)"), "R5000"], lambda ev: "E:[18 " in ev),
+    ("RUN n of an unchanged program starts without the definitions of the run before",
+     [sess.E("10 DEF FNA(X)=X*2"), sess.E("20 PRINT FNA(1)"), sess.E("30 END"), sess.E("40 PRINT FNA(3)"), sess.E("RUN"), "R5000", sess.E("RUN 40"), "R5000"],
+     lambda ev: "E:[18 40" in ev and sess.hx(" 6 ") not in ev),
+    ("CLEAR in direct mode forgets the definitions",
+     [sess.E("10 DEF FNA(X)=X*2"), sess.E("20 PRINT FNA(1)"), sess.E("RUN"), "R5000", sess.E("PRINT FNA(4)"), "R5000", sess.E("CLEAR"), "R5000",
+      sess.E("PRINT FNA(5)"), "R5000"],
+     lambda ev: sess.hx(" 8 ") in ev and "E:[18 " in ev and sess.hx(" 10 ") not in ev),
 ]
 
 
